@@ -3,9 +3,11 @@
 package ssau
 
 import (
+	"fmt"
 	"go/constant"
 	"go/token"
 	"go/types"
+	"strings"
 
 	"golang.org/x/tools/go/ssa"
 )
@@ -829,4 +831,112 @@ func FreeVarCell(fv *ssa.FreeVar) *ssa.Alloc {
 		return nil
 	}
 	return nil
+}
+
+// ValueSources enumerates the values v can take, looking through phis and
+// through local aggregates (struct and array variables that never leave the
+// function): a field read out of a table built from literals resolves to
+// the constants stored into that field of the table's elements. ok is false
+// when some origin is not accounted for.
+func ValueSources(v ssa.Value) (leaves []ssa.Value, ok bool) {
+	w := &srcWalk{seen: map[string]bool{}, ok: true}
+	w.val(v, nil, 0)
+	return w.out, w.ok && len(w.out) > 0
+}
+
+type srcWalk struct {
+	out  []ssa.Value
+	seen map[string]bool
+	ok   bool
+}
+
+func (w *srcWalk) key(v ssa.Value, path []string) string {
+	return fmt.Sprintf("%p|%s", v, strings.Join(path, "."))
+}
+
+func (w *srcWalk) val(v ssa.Value, path []string, d int) {
+	if d > 24 {
+		w.ok = false
+		return
+	}
+	k := w.key(v, path)
+	if w.seen[k] {
+		return
+	}
+	w.seen[k] = true
+	switch x := v.(type) {
+	case *ssa.Phi:
+		for _, e := range x.Edges {
+			w.val(e, path, d+1)
+		}
+	case *ssa.Field:
+		w.val(x.X, append([]string{FieldName(x)}, path...), d+1)
+	case *ssa.Index:
+		w.val(x.X, append([]string{"[]"}, path...), d+1)
+	case *ssa.ChangeType:
+		w.val(x.X, path, d+1)
+	case *ssa.UnOp:
+		if x.Op == token.MUL {
+			w.addr(x.X, path, d+1)
+			return
+		}
+		if len(path) == 0 {
+			w.out = append(w.out, v)
+		} else {
+			w.ok = false
+		}
+	default:
+		if len(path) == 0 {
+			w.out = append(w.out, v)
+		} else {
+			w.ok = false
+		}
+	}
+}
+
+func (w *srcWalk) addr(a ssa.Value, path []string, d int) {
+	switch x := a.(type) {
+	case *ssa.FieldAddr:
+		w.addr(x.X, append([]string{FieldName(x)}, path...), d+1)
+	case *ssa.IndexAddr:
+		w.addr(x.X, append([]string{"[]"}, path...), d+1)
+	case *ssa.Alloc:
+		w.stores(x, path, d+1)
+	default:
+		w.ok = false
+	}
+}
+
+// stores: everything stored at sub-path path of the location addr names.
+func (w *srcWalk) stores(addr ssa.Value, path []string, d int) {
+	if d > 24 || addr.Referrers() == nil {
+		w.ok = false
+		return
+	}
+	for _, ref := range *addr.Referrers() {
+		switch r := ref.(type) {
+		case *ssa.Store:
+			if r.Addr != addr {
+				w.ok = false // the address itself is stored somewhere
+				continue
+			}
+			w.val(r.Val, path, d+1)
+		case *ssa.FieldAddr:
+			if len(path) > 0 && path[0] == FieldName(r) {
+				w.stores(r, path[1:], d+1)
+			} else if len(path) == 0 {
+				// a part of the value is written separately
+				w.ok = false
+			}
+		case *ssa.IndexAddr:
+			if len(path) > 0 && path[0] == "[]" {
+				w.stores(r, path[1:], d+1)
+			} else if len(path) == 0 {
+				w.ok = false
+			}
+		case *ssa.UnOp, *ssa.DebugRef:
+		default:
+			w.ok = false
+		}
+	}
 }
